@@ -107,6 +107,7 @@ class pLSCF(BaseAlgorithm[pLSCFRunParams, pLSCFResult, typing.Iterable[float]]):
         mask3, mask4 = gen.HC_phi_comp(Phis, hc_mpc_lim, hc_mpd_lim)
         lista = [Fns, Xis, Phis]
         Fns, Xis, Phis = gen.applymask(lista, mask3, Phis.shape[2])
+        lista = [Fns, Xis, Phis]
         Fns, Xis, Phis = gen.applymask(lista, mask4, Phis.shape[2])
 
         # Apply SOFT CRITERIA
@@ -393,6 +394,7 @@ class pLSCF_MS(pLSCF[pLSCFRunParams, pLSCFResult, typing.Iterable[dict]]):
         mask3, mask4 = gen.HC_phi_comp(Phis, hc_mpc_lim, hc_mpd_lim)
         lista = [Fns, Xis, Phis]
         Fns, Xis, Phis = gen.applymask(lista, mask3, Phis.shape[2])
+        lista = [Fns, Xis, Phis]
         Fns, Xis, Phis = gen.applymask(lista, mask4, Phis.shape[2])
 
         # Apply SOFT CRITERIA
